@@ -16,6 +16,8 @@ import time
 from pathlib import Path
 
 V = Path(__file__).resolve().parent.parent
+# the checkout whose ./check is run (default: this one). A frozen copy can be named while builders edit /verif.
+CHECK_ROOT = Path(os.environ.get("SEEDED_CHECK_ROOT", V))
 
 
 def sh(cmd, **kw):
@@ -32,6 +34,7 @@ def main():
     ap.add_argument("--verify-demo", action="store_true")
     ap.add_argument("--tier", default="quick")
     ap.add_argument("--demo-only", action="store_true", help="only (re)run the demonstrations, keep the recorded check results")
+    ap.add_argument("--tests", action="store_true", help="also run the repository's test-suite against the patched tree (must pass)")
     a = ap.parse_args()
     sdir = V / "seeded"
     ids = a.ids or sorted(p.name for p in sdir.iterdir() if (p / "patch.diff").exists())
@@ -49,7 +52,8 @@ def main():
             entry = {"property": meta["property"], "tier": a.tier, "repo_head": sh("git -C /repo rev-parse --short HEAD").stdout.strip()}
             if not (a.verify_demo or a.demo_only):   # keep the demonstration results recorded when the change was stored
                 prev = (json.loads(resf.read_text()) if resf.exists() else {}).get(sid, {})
-                for k in ("demo_without_patch_exit", "demo_with_patch_exit", "demo_with_patch_tail"):
+                for k in ("demo_without_patch_exit", "demo_with_patch_exit", "demo_with_patch_tail",
+                          "tests_with_patch_exit", "tests_with_patch_tail"):
                     if k in prev:
                         entry[k] = prev[k]
             if (a.verify_demo or a.demo_only) and (d / "demo.py").exists():
@@ -66,6 +70,13 @@ def main():
                 r1 = subprocess.run(["/venv/bin/python", str(d / "demo.py")], capture_output=True, text=True, env=env, timeout=900)
                 entry["demo_with_patch_exit"] = r1.returncode
                 entry["demo_with_patch_tail"] = (r1.stdout + r1.stderr)[-300:]
+            if a.tests:
+                envt = dict(os.environ, PYTHONPATH=pypath(wt), PYTHONDONTWRITEBYTECODE="1")
+                rt = subprocess.run(["/venv/bin/python", "-m", "pytest", "-q", "-p", "no:cacheprovider", "-x",
+                                     "--ignore=packages/geff/tests/test_cli.py", "packages"],
+                                    capture_output=True, text=True, env=envt, cwd=wt, timeout=3600)
+                entry["tests_with_patch_exit"] = rt.returncode
+                entry["tests_with_patch_tail"] = rt.stdout.strip().splitlines()[-1][-200:] if rt.stdout.strip() else ""
             if a.demo_only:
                 import fcntl
                 with open(str(resf) + ".lock", "w") as lk:
@@ -83,7 +94,7 @@ def main():
             for pid in [meta["property"], *meta.get("also_run", [])]:
                 t = time.time()
                 env = dict(os.environ, GEFF_REPO=wt, VERIF_SEED=os.environ.get("VERIF_SEED", "0"))
-                c = subprocess.run([str(V / "check"), pid, "--tier", a.tier], capture_output=True, text=True, env=env, timeout=7200)
+                c = subprocess.run([str(CHECK_ROOT / "check"), pid, "--tier", a.tier], capture_output=True, text=True, env=env, timeout=7200)
                 vio = [ln for ln in c.stdout.splitlines() if ln.startswith("VIOLATION")]
                 entry["checks"][pid] = {"exit": c.returncode, "violation_lines": vio[:4],
                                         "concrete": any("no-failing-input-found" not in v for v in vio),
@@ -103,7 +114,7 @@ def main():
         finally:
             sh(f"git -C /repo worktree remove --force {wt}")
     # restore Gen for the real tree
-    sh(f"/venv/bin/python {V}/harness/translate.py")
+    sh(f"/venv/bin/python {CHECK_ROOT}/harness/translate.py")
 
 
 if __name__ == "__main__":
